@@ -253,6 +253,7 @@ func genMV(gen *vlib.G) {
 		}
 	}
 	gen.Case("Normal statdist", func(t *vlib.T) { checkMVNormalStat(t) })
+	gen.Case("Normal statdist dims 1-4 closed forms", func(t *vlib.T) { checkMVNormalStatHD(t) })
 	for i, b := range [][]r1.Interval{{{Min: 0, Max: 1}}, {{Min: -3, Max: 2}, {Min: 2, Max: 102}}, {{Min: 0, Max: 1e-2}, {Min: -1, Max: 1}, {Min: 5, Max: 5.5}}} {
 		b := b
 		gen.Case(fmt.Sprintf("Uniform set=%d dim=%d", i, len(b)), func(t *vlib.T) { checkMVUniform(t, b) })
@@ -828,6 +829,113 @@ func checkMVNormalStat(t *vlib.T) {
 	t.Outcome("statdist")
 }
 
+// checkMVNormalStatHD: the divergences between normal laws in every dimension 1..4 (all
+// ordered pairs of the mv cases of equal dimension, plus a shifted copy) against the textbook
+// closed forms evaluated with the harness's own Gauss-Jordan linear algebra, and the relations
+// between them. (The closed forms themselves are validated against quadrature of the
+// definitions in dimensions 1 and 2 by checkMVNormalStat.)
+func checkMVNormalStatHD(t *vlib.T) {
+	r := &rep{t: t}
+	t.Nontrivial()
+	cs := mvCases()
+	for i := range cs {
+		sh := append([]float64(nil), cs[i].mu...)
+		for k := range sh {
+			sh[k] += 0.3 * math.Sqrt(cs[i].sigma.a[k][k]) * float64(k+1)
+		}
+		cs = append(cs, mvCase{cs[i].name + " shifted", sh, cs[i].sigma})
+	}
+	comb := func(a, b smat, wa, wb float64) smat {
+		var m smat
+		m.n = a.n
+		for i := 0; i < a.n; i++ {
+			for j := 0; j < a.n; j++ {
+				m.a[i][j] = wa*a.a[i][j] + wb*b.a[i][j]
+			}
+		}
+		return m
+	}
+	trProd := func(a, b smat) float64 {
+		s := 0.0
+		for i := 0; i < a.n; i++ {
+			for j := 0; j < a.n; j++ {
+				s += a.a[i][j] * b.a[j][i]
+			}
+		}
+		return s
+	}
+	n := 0
+	for _, l := range cs {
+		for _, q := range cs {
+			if l.sigma.n != q.sigma.n {
+				continue
+			}
+			k := float64(l.sigma.n)
+			arg := l.name + " || " + q.name
+			cond := l.sigma.condEst() * q.sigma.condEst()
+			if cond > 1e8 {
+				continue
+			}
+			dl, _ := distmv.NewNormal(l.mu, l.sigma.sym(), nil)
+			dq, _ := distmv.NewNormal(q.mu, q.sigma.sym(), nil)
+			d := subv(l.mu, q.mu)
+			ldl, ldq := math.Log(l.sigma.det()), math.Log(q.sigma.det())
+			kl := 0.5 * (ldq - ldl + trProd(q.sigma.inv(), l.sigma) + q.sigma.inv().quad(d) - k)
+			avg := comb(l.sigma, q.sigma, 0.5, 0.5)
+			bh := 0.125*avg.inv().quad(d) + 0.5*(math.Log(avg.det())-0.5*ldl-0.5*ldq)
+			hl := 0.5 * (k*(log2Pi+1) + ldl)
+			tol := 1e-9 * cond
+			chk := func(name string, got, want float64) {
+				n++
+				if !closeRA(got, want, tol, tol) {
+					r.fail(name, arg, "got %v, closed form with the harness linear algebra %v", got, want)
+				}
+			}
+			chk("KullbackLeibler.DistNormal", distmv.KullbackLeibler{}.DistNormal(dl, dq), kl)
+			chk("CrossEntropy.DistNormal", distmv.CrossEntropy{}.DistNormal(dl, dq), kl+hl)
+			chk("Bhattacharyya.DistNormal", distmv.Bhattacharyya{}.DistNormal(dl, dq), bh)
+			chk("Bhattacharyya symmetric", distmv.Bhattacharyya{}.DistNormal(dq, dl), bh)
+			chk("Hellinger.DistNormal", distmv.Hellinger{}.DistNormal(dl, dq), math.Sqrt(math.Max(0, -math.Expm1(-bh))))
+			for _, al := range []float64{0.25, 0.5, 0.9} {
+				sa := comb(l.sigma, q.sigma, 1-al, al)
+				ren := al/2*sa.inv().quad(d) - 1/(2*(al-1))*(math.Log(sa.det())-(1-al)*ldl-al*ldq)
+				chk(fmt.Sprintf("Renyi(%g).DistNormal", al), distmv.Renyi{Alpha: al}.DistNormal(dl, dq), ren)
+			}
+			chk("Renyi(1/2) = 2 Bhattacharyya", distmv.Renyi{Alpha: 0.5}.DistNormal(dl, dq), 2*bh)
+			// (only for moderately different laws: dD/dalpha grows with the variance of the log ratio)
+			if got := (distmv.Renyi{Alpha: 1 - 1e-7}).DistNormal(dl, dq); kl < 50 && !closeRA(got, kl, 1e-4, 1e-4) {
+				r.fail("Renyi(alpha -> 1) -> KL", arg, "Renyi(1-1e-7)=%v KL=%v", got, kl)
+			}
+			if got := (distmv.Renyi{Alpha: 0}).DistNormal(dl, dq); got != 0 {
+				r.fail("Renyi(0)", arg, "%v", got)
+			}
+			// Wasserstein-2 (squared, as documented) for commuting (here: diagonal) covariances
+			diag := true
+			for i := 0; i < l.sigma.n; i++ {
+				for j := 0; j < l.sigma.n; j++ {
+					if i != j && (l.sigma.a[i][j] != 0 || q.sigma.a[i][j] != 0) {
+						diag = false
+					}
+				}
+			}
+			if diag {
+				w2 := 0.0
+				for i := 0; i < l.sigma.n; i++ {
+					w2 += d[i]*d[i] + math.Pow(math.Sqrt(l.sigma.a[i][i])-math.Sqrt(q.sigma.a[i][i]), 2)
+				}
+				chk("Wasserstein.DistNormal (d^2, diagonal covariances)", distmv.Wasserstein{}.DistNormal(dl, dq), w2)
+			} else if l.name == q.name {
+				chk("Wasserstein.DistNormal(l,l)", distmv.Wasserstein{}.DistNormal(dl, dq), 0)
+			}
+			if l.name == q.name {
+				chk("KullbackLeibler(l,l)=0", distmv.KullbackLeibler{}.DistNormal(dl, dq), 0)
+			}
+		}
+	}
+	t.Count("divergences_checked", int64(n))
+	t.Outcome("statdist closed forms")
+}
+
 func checkMVUniform(t *vlib.T, b []r1.Interval) {
 	r := &rep{t: t}
 	t.Nontrivial()
@@ -1088,6 +1196,36 @@ func checkDirichlet(t *vlib.T, al []float64) {
 		}
 	}
 	// KL between Dirichlet laws in dimension 2 against the quadrature of the definition
+	{
+		// KL between Dirichlet laws of any dimension: E_l[log x_i] = d/d alpha_i log B(alpha) with the
+		// derivative taken by Richardson differences of math.Lgamma (the formula is validated against
+		// the quadrature of the definition in dimension 2 below)
+		ar := make([]float64, n)
+		for i := range ar {
+			ar[i] = al[(i+1)%n] + 0.5*float64(i%2) + 0.25
+		}
+		q := distmv.NewDirichlet(ar, nil)
+		psi := func(x float64) float64 {
+			return richardson(func(e float64) float64 { v, _ := math.Lgamma(x + e); return v }, 1e-3*math.Min(1, x))
+		}
+		logB := func(a []float64) float64 {
+			s, tot := 0.0, 0.0
+			for _, v := range a {
+				lg, _ := math.Lgamma(v)
+				s += lg
+				tot += v
+			}
+			lg, _ := math.Lgamma(tot)
+			return s - lg
+		}
+		kl := logB(ar) - logB(al)
+		for i := range al {
+			kl += (al[i] - ar[i]) * (psi(al[i]) - psi(a0))
+		}
+		if got := (distmv.KullbackLeibler{}).DistDirichlet(d, q); !closeRA(got, kl, 1e-7, 1e-7) {
+			r.fail("KullbackLeibler.DistDirichlet", fmt.Sprint(ar), "closed form %v; with d log B/d alpha by differences of Lgamma %v", got, kl)
+		}
+	}
 	if n == 2 && smooth {
 		q := distmv.NewDirichlet([]float64{al[1] + 0.5, al[0] + 1}, nil)
 		kl := glAdaptive(func(x float64) float64 {
